@@ -1,37 +1,57 @@
 #!/usr/bin/env python3
-"""Run ALL registered checks against every kept behaviour-preserving refactor (twins/<id>-<k>/patch.diff): apply to /repo, run each
-property's quick check without writing evidence, undo. Any exit 1 is a FALSE ALARM (to be fixed in the rule); exit 2 is a fail-closed
-'cannot decide' (undesirable but not an alarm). Writes twins/RESULTS.json."""
-import json, os, subprocess, sys
+"""Run ALL registered checks against every kept behaviour-preserving refactor (twins/<id>-<k>/patch.diff), each in its own scratch
+worktree of /repo HEAD (checks are pointed at it with --repo), in parallel. Any exit 1 is a FALSE ALARM (to be fixed in the rule);
+exit 2 is a fail-closed 'cannot decide' (undesirable, not an alarm). Writes twins/RESULTS.json."""
+import json, os, shutil, subprocess, sys, tempfile
+from concurrent.futures import ThreadPoolExecutor
 V = "/verif"
-only = set(sys.argv[1:])
-pids = sorted(f[:-3].upper() for f in os.listdir(f"{V}/rules") if f.startswith("c") and f.endswith(".py"))
-assert subprocess.run("git -C /repo status --porcelain --untracked-files=no", shell=True, capture_output=True, text=True).stdout.strip() == "", "/repo not clean"
-res = {}
-try:
-    res = json.load(open(f"{V}/twins/RESULTS.json"))
-except Exception:
-    pass
-for d in sorted(os.listdir(f"{V}/twins")):
+args = sys.argv[1:]
+PROP = None
+if "-p" in args:
+    PROP = args[args.index("-p") + 1]
+    args = [a for a in args if a not in ("-p", PROP)]
+only = set(args)
+
+def one(d):
     p = f"{V}/twins/{d}/patch.diff"
-    if not os.path.exists(p) or (only and d not in only and d.split("-")[0] not in only):
-        continue
-    a = subprocess.run(f"git -C /repo apply {p}", shell=True, capture_output=True, text=True)
+    wt = tempfile.mkdtemp(prefix=f"tw_{d}_", dir="/tmp"); os.rmdir(wt)
     try:
+        subprocess.run(f"git -C /repo worktree add --detach {wt} HEAD", shell=True, capture_output=True)
+        a = subprocess.run(f"git apply {p}", shell=True, cwd=wt, capture_output=True, text=True)
         if a.returncode != 0:
-            res[d] = {"status": "patch-does-not-apply"}
-            print(d, "patch-does-not-apply"); continue
+            return d, {"status": "patch-does-not-apply"}
+        if PROP:
+            r = subprocess.run(f"./check {PROP} --repo {wt} --no-evidence", shell=True, cwd=V, capture_output=True, text=True)
+            lines = [l.strip() for l in r.stdout.splitlines() if l.startswith("  C") or l.startswith("ANALYSIS")]
+            return d, {"status": {0: "silent", 1: "FALSE-ALARM", 2: "undecided"}.get(r.returncode, "?"), "alarms": [{"property": PROP, "report": " | ".join(lines)[:500]}] if r.returncode == 1 else [],
+                       "undecided": [{"property": PROP, "report": " | ".join(lines)[:300]}] if r.returncode == 2 else []}
+        r = subprocess.run(f"./check ALL --repo {wt} --no-evidence", shell=True, cwd=V, capture_output=True, text=True)
         alarms, undecided = [], []
-        for pid in pids:
-            r = subprocess.run(f"./check {pid} --no-evidence", shell=True, cwd=V, capture_output=True, text=True)
-            if r.returncode == 1:
-                lines = [l.strip()[:230] for l in r.stdout.splitlines() if l.startswith("  C")]
-                alarms.append({"property": pid, "report": lines[:3]})
-            elif r.returncode == 2:
-                lines = [l.strip()[:230] for l in r.stdout.splitlines() if l.startswith("ANALYSIS")]
-                undecided.append({"property": pid, "report": lines[:1]})
-        res[d] = {"status": "FALSE-ALARM" if alarms else ("undecided" if undecided else "silent"), "alarms": alarms, "undecided": undecided}
-        print(d, res[d]["status"], "|", "; ".join(f"{x['property']}: {x['report'][0] if x['report'] else ''}" for x in alarms + undecided)[:400])
+        for l in r.stdout.splitlines():
+            parts = l.split(" ", 2)
+            if len(parts) >= 2 and parts[1] == "exit=1":
+                alarms.append({"property": parts[0], "report": parts[2][:400] if len(parts) > 2 else ""})
+            elif len(parts) >= 2 and parts[1] == "exit=2":
+                undecided.append({"property": parts[0], "report": parts[2][:300] if len(parts) > 2 else ""})
+        return d, {"status": "FALSE-ALARM" if alarms else ("undecided" if undecided else "silent"), "alarms": alarms, "undecided": undecided}
     finally:
-        subprocess.run("git -C /repo reset -q --hard HEAD", shell=True)
-json.dump(res, open(f"{V}/twins/RESULTS.json", "w"), indent=1)
+        subprocess.run(f"git -C /repo worktree remove --force {wt}", shell=True, capture_output=True)
+        shutil.rmtree(wt, ignore_errors=True)
+
+ds = [d for d in sorted(os.listdir(f"{V}/twins")) if os.path.exists(f"{V}/twins/{d}/patch.diff") and (not only or d in only or d.split("-")[0] in only)]
+res = {}
+if not PROP:
+    try:
+        res = json.load(open(f"{V}/twins/RESULTS.json"))
+    except Exception:
+        pass
+with ThreadPoolExecutor(max_workers=10) as ex:
+    for d, r in ex.map(one, ds):
+        res[d] = r
+        if PROP and r["status"] == "silent":
+            continue
+        print(d, r["status"], "|", "; ".join(f"{x['property']}: {x['report'][:150]}" for x in r.get("alarms", []) + r.get("undecided", []))[:420], flush=True)
+if not PROP:
+    json.dump(res, open(f"{V}/twins/RESULTS.json", "w"), indent=1)
+from collections import Counter
+print(Counter(v["status"] for k, v in res.items() if not only or k in ds))
